@@ -655,3 +655,63 @@ def r04_10_key_test_table(ctx, rid='R04.10'):
             '(is ScalarNode, tag == str): %s): e.g. a merge key `<<` or an int key passes, and what PyYAML merges in is constructed '
             'unchecked' % shown)
     r.done()
+
+
+def r08_14_verdict_is_a_set(ctx, rid='R08.14'):
+    """Every recogniser answers (set of types, error). The union recogniser merges member verdicts with `|=`: a verdict that is a
+    list makes that a TypeError for a perfectly admissible type (Optional[Any], Union[int, Any])."""
+    P = ctx.P
+    from ..facts import verdict, reaching_defs
+    r = ctx.rule(rid, 'the verdict of every recogniser exit is a set (set(), a set display or comprehension, or the verdict of another '
+                      'recogniser): Union members are merged with |=', floor=8)
+
+    def is_set(f, e, at, depth=0):
+        if isinstance(e, (ast.Set, ast.SetComp)):
+            return True
+        if isinstance(e, ast.Call) and call_name(e) in ('set', 'frozenset'):
+            return True
+        if isinstance(e, ast.Call) and (call_name(e) or '').startswith(('recognize', '__recognize')):
+            return True         # first component of a recogniser's answer, unpacked below
+        if isinstance(e, ast.BinOp) and isinstance(e.op, (ast.BitOr, ast.BitAnd, ast.Sub)):
+            return is_set(f, e.left, at, depth) and is_set(f, e.right, at, depth)
+        if isinstance(e, ast.Name) and depth < 4:
+            ds = reaching_defs(f, at, e.id)
+            if not ds:
+                return False
+            for d in ds:
+                if isinstance(d, ast.AugAssign):
+                    continue
+                v = d.value if isinstance(d, (ast.Assign, ast.AnnAssign)) else None
+                if v is None:
+                    return False
+                tgt = d.targets[0] if isinstance(d, ast.Assign) else d.target
+                if isinstance(tgt, ast.Tuple):
+                    # recognised, error = <recogniser call>   or   = <set>, <error>
+                    idx = [i for i, x in enumerate(tgt.elts) if isinstance(x, ast.Name) and x.id == e.id]
+                    if isinstance(v, ast.Tuple) and idx and idx[0] < len(v.elts):
+                        if not is_set(f, v.elts[idx[0]], d, depth + 1):
+                            return False
+                    elif not (isinstance(v, ast.Call) and idx == [0] and (call_name(v) or '').lstrip('_').startswith('recognize')):
+                        return False
+                elif isinstance(v, ast.Constant) and v.value is None:
+                    continue        # "nothing recognised yet" placeholder, replaced or rejected before the return
+                elif not is_set(f, v, d, depth + 1):
+                    return False
+            return True
+        return False
+    n = 0
+    for fi in P.yatiml_functions():
+        if fi.module.name != 'yatiml.recognizer' or fi.cls is None or not (fi.name == 'recognize' or fi.name.startswith('__recognize')):
+            continue
+        f = fn_of(fi)
+        for ret in f.returns():
+            if not (isinstance(ret.value, ast.Tuple) and len(ret.value.elts) == 2):
+                continue
+            n += 1
+            e = ret.value.elts[0]
+            r.check(is_set(f, e, ret), '%s: verdict %s is a set' % (fi.qual, norm(e)[:40]), f.key('verdict-set:%s' % f.alpha.text(e)[:40]), f.loc(ret),
+                    '%s can answer a verdict that is not a set (%s comes from a list / tuple display): merging it into a Union\'s verdict '
+                    'with |= raises TypeError, e.g. for an attribute typed Optional[Any]' % (fi.key, norm(e)[:40]))
+    if n == 0:
+        raise AnalysisError('anchor missing: no (verdict, error) return in the recogniser')
+    r.done()
